@@ -21,7 +21,10 @@ def items(ctx):
              # tau between two attainable affinities: 0.3 (between 1/2 and 1/16), 0.75 (between 1 and 1/2), 0 (off)
              # ... and tau EXACTLY an attainable affinity (1, 1/2, 1/16): "below tau" is strict
              "tau2": rng.choice([1, 78643, 196609, 2 * SC, SC, SC // 8]), "delta": -SC * rng.choice([0, 1, 2]),
-             "dfnum": 1, "dfden": rng.choice([1, 2]), "triu": rng.random() < 0.3, "psi": [0, 0, 0, 0]}
+             "dfnum": 1, "dfden": rng.choice([1, 2]), "triu": rng.random() < 0.3,
+             # psi relaxation at the begin of either series (asymmetric too): zero instead of -inf on that border
+             "psi": rng.choice([[0, 0, 0, 0]] * 3 + [[1, 0, 0, 0], [0, 0, 1, 0], [2, 0, 1, 0], [1, 0, 2, 0], [1, 0, 1, 0]])}
+        c["psi"] = [min(c["psi"][0], len(s1)), 0, min(c["psi"][2], len(s2)), 0]     # psi never exceeds the series
         variants = [{"use_c": False}, {"use_c": True, "compact": False}, {"use_c": True, "compact": True}]
         calls = []
         for _ in range(rng.randint(1, 3)):
@@ -54,7 +57,7 @@ def items(ctx):
 
 RULE = ("exact regime gamma = ln 2 (affinity 2^-d^2, |d| <= 3), scale 2^17; cases: all series pairs up to 3x3 over {0,1,3} "
         "(quick: thinned) and seeded pairs up to 5x4 (and self-comparison) x window x penalty (none / 0 / 1/4 / 1) x tau "
-        "(0, 0.3, 0.75: between attainable affinities; 1, 1/2, 1/16: exactly attainable ones) x delta (0,-1,-2) x delta_factor (1, 1/2) x only_triu; recorded: the "
+        "(0, 0.3, 0.75: between attainable affinities; 1, 1/2, 1/16: exactly attainable ones) x delta (0,-1,-2) x delta_factor (1, 1/2) x only_triu x psi relaxation at the begin of either series (0-2, asymmetric too; matrix routes); recorded: the "
         "matrix of warping_paths_affinity (Python), via use_c, warping_paths_affinity_fast, and compact + full-range "
         "expansion; and local_concurrences histories of 1-3 kbest_matches calls (k, minlen, buffer, restart/keep) for "
         "Python / C / C-compact; TLC judges every cell against the recurrence and every history by HistoryOK "
